@@ -460,6 +460,20 @@ func (in *Interp) merge(c *smt.Term, a, b Value) Value {
 				found = true
 				break
 			}
+			// strings of equal length collapse into one alternative (bytewise ite)
+			if x, ok := out[i].V.(*StrVal); ok {
+				if y, ok := al.V.(*StrVal); ok && x.Len() == y.Len() && !x.Opaque && !y.Opaque {
+					xb, yb := in.strBytes(x), in.strBytes(y)
+					r := make([]*smt.Term, len(xb))
+					for k := range r {
+						r[k] = in.St.Ite(al.G, yb[k], xb[k])
+					}
+					out[i].V = in.mkStr(r)
+					out[i].G = in.St.Or(out[i].G, al.G)
+					found = true
+					break
+				}
+			}
 		}
 		if !found {
 			out = append(out, al)
